@@ -96,6 +96,17 @@ func ruleR29(c *Ctx) {
 				c.r.exception(ex)
 				return ex, ""
 			}
+			// a parameter of a helper (pushChildren(q, n)): what is written is the caller's; the
+			// obligation moves to every call site, where the argument must be memory of that call
+			if u.Lit == nil && u.Decl != nil {
+				if id := identOfVar(u, v, info); id != nil {
+					if pi := m.paramIndex(u, id); pi >= 0 {
+						if okAll, n := c.argFreshAtCalls(u, pi, 0); okAll && n > 0 {
+							return fmt.Sprintf("parameter %s: each of the %d call sites passes memory allocated by the calling query", v.Name(), n), ""
+						}
+					}
+				}
+			}
 			return "", "store through " + v.Name() + " (" + text + "), which is not memory allocated by this call: the query writes memory that outlives it"
 		}
 		fl.walk(func(n ast.Node, fs *FactSet, stmt ast.Node, b *cfg.Block) {
@@ -233,4 +244,64 @@ func (c *Ctx) viaCodecScratch(e ast.Expr) bool {
 		return !found
 	})
 	return found
+}
+
+
+// identOfVar finds the declaring identifier of a parameter variable.
+func identOfVar(u *FuncUnit, v *types.Var, info *types.Info) *ast.Ident {
+	if u.Type == nil || u.Type.Params == nil {
+		return nil
+	}
+	for _, f := range u.Type.Params.List {
+		for _, nm := range f.Names {
+			if info.Defs[nm] == v {
+				return nm
+			}
+		}
+	}
+	return nil
+}
+
+// argFreshAtCalls: at every call site of helper u the argument bound to parameter pi is memory
+// allocated by the caller itself (a fresh local slice/pointer), or the caller's own parameter for
+// which the same holds one level up.
+func (c *Ctx) argFreshAtCalls(u *FuncUnit, pi int, depth int) (bool, int) {
+	info := c.m.Info
+	sites := c.callSitesOf(u)
+	if depth > 2 {
+		return false, 0
+	}
+	n := 0
+	for _, s := range sites {
+		a := argFor(s.call, pi)
+		if a == nil {
+			return false, n
+		}
+		n++
+		cfl := c.e.flow(s.u)
+		var at *FactSet
+		cfl.walk(func(x ast.Node, fs *FactSet, stmt ast.Node, b *cfg.Block) {
+			if x == ast.Node(s.call) && at == nil {
+				at = fs
+			}
+		})
+		if at == nil {
+			return false, n
+		}
+		if cfl.freshExpr(a, at, 0) {
+			continue
+		}
+		if v := identVar(info, a); v != nil {
+			if at.isFresh(v) || cfl.fresh[v] {
+				continue
+			}
+			if id := identOfVar(s.u, v, info); id != nil && s.u.Lit == nil {
+				if ok, _ := c.argFreshAtCalls(s.u, c.m.paramIndex(s.u, id), depth+1); ok {
+					continue
+				}
+			}
+		}
+		return false, n
+	}
+	return true, n
 }
